@@ -207,3 +207,14 @@ package analysis
 //@   props C17
 //@   at call InsertError#* before assert[count-report-only-when-its-switch-is-on] arg1 == common.CheckErrorCallParam && !old(has(common.GConfig.IgnoreErrorTypeMap, common.CheckErrorCallParam))
 //@ end
+
+// ---- C20: repeated if / elseif condition (type 19) ----
+//@ func (*Analysis).cgIfStat
+//@   props C20
+//@   at call InsertRelateError#0 before assert[duplicate-if-only-for-structurally-equal-conditions] arg1 == common.CheckErrorDuplicateIf && 0 <= i && i < j && j < len(node.Exps)
+//@        && CompExp(node.Exps[i], node.Exps[j]) && a.checkTerm == results.CheckTermFirst
+//@   loop for:j<len(node.Exps) exits-early-only-if [every-later-condition-is-compared] false
+//@   loop for:j<len(node.Exps) invariant 0 <= i && i < j
+//@   loop range:node.Exps#0 invariant rangeindex >= -1
+//@   loop range:node.Exps#0 exits-early-only-if [every-condition-starts-a-comparison] false
+//@ end
